@@ -819,6 +819,10 @@ class TypeVariable(TypeInstance):
                     if self.upper and self.upper.subtype(t.operator, True):
                         raise SubtypeMismatch(self.upper, t.operator)
                 else:
+                    # a variable with base type bounds cannot be compound
+                    if self.lower or self.upper:
+                        raise SubtypeMismatch(t.operator,
+                            self.lower or self.upper)
                     variables = t.variables(indirect=False)
 
                     self._constraints.update(chain(*(
